@@ -23,7 +23,7 @@ pub fn runs_for(tier: &str) -> u64 {
         }
     }
     match tier {
-        "thorough" => 400_000,
+        "thorough" => 200_000,
         _ => 48_000,
     }
 }
